@@ -154,5 +154,22 @@ def psd_checks(which):
         check('psd-object-axes', bool(np.isclose(p.x[0, W // 2], 0) and np.isclose(p.y[H // 2, 0], 0)))
         v = float(ifg.bandlimited_rms(flow=0, fhigh=None))
         check('bandlimited-rms-runs', bool(np.isfinite(v) and v >= 0))
+        # the class methods are the functions: same spectrum, same per-axis frequency grids (square data or not), same band RMS
+        ux, uy, pf = I.psd(z, dx)
+        check('psd-object-is-the-function', bool(np.allclose(p.data, pf) and np.allclose(np.broadcast_to(p.x, pf.shape), np.broadcast_to(ux, pf.shape))
+                                                 and np.allclose(np.broadcast_to(p.y, pf.shape), np.broadcast_to(uy, pf.shape))
+                                                 and np.allclose(np.broadcast_to(p.r, pf.shape), np.hypot(np.broadcast_to(ux, pf.shape), np.broadcast_to(uy, pf.shape)))))
+        rr = np.hypot(np.broadcast_to(ux, pf.shape), np.broadcast_to(uy, pf.shape))
+        rs = np.unique(np.round(rr.ravel(), 12))
+        if len(rs) >= 4:
+            lo, hi = (rs[1] + rs[2]) / 2, (rs[-2] + rs[-1]) / 2
+            check('method-band-rms-is-the-function', bool(np.isclose(float(ifg.bandlimited_rms(flow=lo, fhigh=hi)), float(I.bandlimited_rms(rr, pf, flow=lo, fhigh=hi)), rtol=1e-9)))
+        # the class entry point for synthesis, with its default mask argument and without a mask
+        target = float(rng.uniform(0.1, 20))
+        for mk in ('default', None):
+            kw = {} if mk == 'default' else dict(mask=None)
+            syn = I.Interferogram.render_from_psd(float(rng.uniform(5, 50)), int(rng.integers(8, 25)), rms=target, a=1.0, b=0.01, c=2.0, **kw)
+            fin = np.isfinite(syn.data)
+            check('render_from_psd-requested-rms-over-valid-samples', bool(np.isclose(np.sqrt((syn.data[fin] ** 2).mean()), target, rtol=1e-9)))
         tis = float(ifg.total_integrated_scatter(0.6328))
         check('tis-in-range', bool(0 <= tis <= 1))
